@@ -76,10 +76,13 @@ class Run:
         viol = [o for o in self.obs if o["verdict"] == "VIOLATION"]
         known = [o for o in self.obs if o["verdict"] == "known-finding"]
         held = [o for o in self.obs if o["verdict"] == "holds"]
+        no_ev = bool(os.environ.get("XSGV_NO_EVIDENCE"))
         os.makedirs(EVID, exist_ok=True)
         for o in known:
             print("KNOWN-FINDING: property=%s %s [%s] %s" % (self.prop, o["key"], o.get("site", "-"), self.known[o["key"]].get("what", o["why"])))
         replay = os.path.join(EVID, "%s.violations.json" % self.prop)
+        if no_ev:
+            replay = "/dev/null"
         if viol:
             with open(replay, "w") as f:
                 json.dump({"property": self.prop, "tree": self.tree, "violations": viol}, f, indent=1)
@@ -88,7 +91,7 @@ class Run:
                 print("  rule=%s site=%s subject=%s" % (o["rule"], o.get("site", "-"), o["subject"]))
                 print("    %s" % o["why"])
                 print("    key=%s" % o["key"])
-        elif os.path.exists(replay) and self.replay_keys is None:
+        elif os.path.exists(replay) and self.replay_keys is None and not no_ev:
             os.remove(replay)
         distinct = len({o["key"] for o in self.obs if o["nontrivial"]})
         n_ob = len(self.obs)
@@ -127,7 +130,7 @@ class Run:
             "wall_s": round(time.time() - self.t0, 2),
             "violations": len(viol),
         }
-        if self.replay_keys is None:
+        if self.replay_keys is None and not no_ev:
             with open(os.path.join(EVID, "%s.json" % self.prop), "w") as f:
                 json.dump(ev, f, indent=1)
         print("%s: %d rule instances evaluated, %d hold, %d known finding(s), %d violation(s)  [tier=%s tree=%s %.1fs]" % (
